@@ -22,6 +22,19 @@ def compare(b, h, v):
     if e['achievements']: chk('achievements (counts per player)', [e['achievements']], list(h.get('achievements', {}).values()))
     if e['ribbons']: chk('ribbons (event counts)', [e['ribbons']], list(h.get('ribbons', {}).values()))
     if e.get('ended'): chk('battle_result present', True, h.get('battle_result') is not None)
+    # the state of the FINAL world: which entities are ships now, with which crew / learned skills; control points and tasks as last sent
+    veh = e.get('vehicles', {})
+    if h.get('crew') is not None:
+        chk('crew (ship ids of the final world)', sorted(veh), sorted(h['crew']))
+        for vid, val in veh.items():
+            if isinstance(val, dict) and 'paramsId' in val and vid in h['crew']: chk('crew[%d].crew_id' % vid, val['paramsId'], h['crew'][vid].get('crew_id'))
+    elif h.get('skills') or any(isinstance(x, dict) and isinstance(x.get('learnedSkills'), int) for x in veh.values()):
+        chk('skills (ship ids of the final world)', sorted(veh), sorted(h.get('skills', {})))
+        for vid, val in veh.items():
+            if isinstance(val, dict) and isinstance(val.get('learnedSkills'), int) and vid in h.get('skills', {}):
+                chk('skills[%d]' % vid, [i + 1 for i in range(64) if val['learnedSkills'] >> i & 1], list(h['skills'][vid]))
+    chk('control_points', [], list(h.get('control_points', [])))
+    chk('tasks', [], list(h.get('tasks', [])))
     players = h.get('players', {})
     chk('roster ids', sorted(e['roster']), sorted(players))
     for pid, rec in e['roster'].items():
@@ -91,11 +104,17 @@ def run(ctx):
     rng = ctx.rng
     try:
         versions = battle.wows_versions()
-        variants = [dict(join=True, battle_end=True, map_name='spaces/16_OC_bees_to_honey'), dict(join=False, battle_end=False, map_name='spaces/s07_Advance')]
+        variants = [dict(join=True, battle_end=True, map_name='spaces/16_OC_bees_to_honey'), dict(join=False, battle_end=False, map_name='spaces/s07_Advance', reuse=True)]
         if ctx.tier != 'quick': variants += [dict(join=True, battle_end=True, map_name='spaces/41_Conquest', n_players=6), dict(join=False, battle_end=True, map_name='17_NA_fault_line')]
+        def big_record(consts):
+            # one player record with a long text value: the pickled roster is then longer than 65535 bytes (packed length with a non-zero third byte)
+            keys = sorted(k for k in consts.id_property_map.values() if k not in ('id', 'name', 'shipId', 'teamId', 'avatarId'))
+            return {keys[0]: 'clan-' + 'x' * 70000} if keys else {}
         for v in versions:
             for vi, kw in enumerate(variants):
                 kw = dict(kw)
+                if vi == 0: kw['roster_extra'] = big_record
+                kwj = {k_: (x.__name__ if callable(x) else x) for k_, x in kw.items()}
                 if v in known_c10: kw['join'] = False          # the join fails there (listed C10 finding); the summary is still checked
                 if v in known_end: kw['battle_end'] = False
                 p = os.path.join(tmp, '%s-%d.wowsreplay' % (v, vi))
@@ -105,19 +124,19 @@ def run(ctx):
                     h = ReplayParser(p, strict=True).get_info()['hidden']
                 except Exception as ex:
                     tb = traceback.extract_tb(ex.__traceback__)[-1]
-                    ctx.violation(dict(kind='battle-does-not-parse', version='wows/' + v, variant=kw, exception='%s: %s' % (type(ex).__name__, str(ex)[:200]), where='%s:%d' % (os.path.basename(tb.filename), tb.lineno),
+                    ctx.violation(dict(kind='battle-does-not-parse', version='wows/' + v, variant=kwj, exception='%s: %s' % (type(ex).__name__, str(ex)[:200]), where='%s:%d' % (os.path.basename(tb.filename), tb.lineno),
                                        how='tools/battle.write_wows(path, version, rng, **variant); ReplayParser(path, strict=True).get_info()'))
                     os.unlink(p); continue
                 diffs = compare(b, h, v)
                 mv = model_vs_library(ctx, p, 'synthetic battle %s variant %d' % (v, vi))
-                if mv and len(ctx.violations) < 4: ctx.violation(dict(mv, variant=kw))
-                if len(ctx.samples) < 2: ctx.sample(dict(version=v, variant=kw, summary={k: h.get(k) for k in ('map', 'player_id', 'death_map', 'shots_damage_map', 'achievements', 'ribbons', 'battle_result')}))
+                if mv and len(ctx.violations) < 4: ctx.violation(dict(mv, variant=kwj))
+                if len(ctx.samples) < 2: ctx.sample(dict(version=v, variant=kwj, summary={k: h.get(k) for k in ('map', 'player_id', 'death_map', 'shots_damage_map', 'achievements', 'ribbons', 'battle_result')}))
                 for field, want, got in diffs:
                     if field == 'map' and got == b.expect['map_raw'].lstrip('spaces/'):
                         ctx.deviation('map-lstrip', {'class': 'map-lstrip'}, dict(kind='summary-field', version='wows/' + v, field=field, expected=want, implementation=got,
                                       how='map packet carrying "%s"' % b.expect['map_raw']))
                     elif len(ctx.violations) < 4:
-                        ctx.violation(dict(kind='summary-field', version='wows/' + v, variant=kw, field=field, expected=want, implementation=got,
+                        ctx.violation(dict(kind='summary-field', version='wows/' + v, variant=kwj, field=field, expected=want, implementation=got,
                                            how='tools/battle.write_wows(path, "%s", random.Random(seed), **variant); ReplayParser(path, strict=True).get_info()["hidden"]' % v))
                         break
                 os.unlink(p)
